@@ -275,6 +275,22 @@ func init() {
 		f := args[0].(float64)
 		return f != f
 	}
+	for name, op := range map[string]Op{"math.Floor": OpFFloor, "math.Ceil": OpFCeil, "math.Trunc": OpFTrunc} {
+		name, op := name, op
+		externals[name] = func(fr *frame, args []value) value {
+			if sx, ok := args[0].(sym); ok {
+				return mkval(FUn(op, sx.t), types.Float64)
+			}
+			f := args[0].(float64)
+			switch op {
+			case OpFFloor:
+				return math.Floor(f)
+			case OpFCeil:
+				return math.Ceil(f)
+			}
+			return math.Trunc(f)
+		}
+	}
 	externals["math.Abs"] = func(fr *frame, args []value) value {
 		if sx, ok := args[0].(sym); ok {
 			return mkval(Ite(FCmp(OpFLt, sx.t, F64(0)), FUn(OpFNeg, sx.t), sx.t), types.Float64)
